@@ -4,6 +4,8 @@
 use crate::tablegen::*;
 use crate::util::*;
 use libp2p_core::verif_clock;
+use libp2p_kad::verif::{NodeStatus, Table};
+use std::num::NonZeroUsize;
 use proptest::prelude::*;
 use serde::{Deserialize, Serialize};
 use serde_json::json;
@@ -107,6 +109,107 @@ fn check(case: &Case) -> Outcome {
     Outcome::pass_l(nontrivial, labels)
 }
 
+// ---------------------------------------------------------------------------------------------
+// large buckets: bucket sizes on both sides of the default K_VALUE (20), many keys per bucket
+
+#[derive(Clone, Debug, Serialize, Deserialize)]
+pub struct BigCase {
+    local: u8,
+    /// configured bucket size; 20 is the crate's default (and the inline capacity of the
+    /// enumeration buffer)
+    bucket_size: u8,
+    /// keys to insert: (bucket selector, seed of the bits below the bucket's top bit, connected)
+    keys: Vec<(u8, u16, bool)>,
+    queries: Vec<Target>,
+}
+
+const BIG_BUCKETS: [u32; 6] = [255, 254, 253, 200, 9, 6];
+
+fn big_dist(sel: u8, seed: u16) -> B32 {
+    let b = BIG_BUCKETS[sel as usize % BIG_BUCKETS.len()];
+    let low = Pat::Hashed(seed.to_be_bytes().to_vec()).value();
+    let m = pow2m1(b);
+    let mut d = pow2(b);
+    for i in 0..32 {
+        d[i] |= low[i] & m[i];
+    }
+    d
+}
+
+fn big_check(c: &BigCase) -> Outcome {
+    verif_clock::set(Duration::ZERO);
+    let local = local_bytes(c.local);
+    let cap = c.bucket_size.max(1) as usize;
+    let mut table = Table::new(raw_key(&local), NonZeroUsize::new(cap).unwrap(), Duration::from_secs(60));
+    let mut inserted: Vec<B32> = vec![];
+    for (i, (sel, seed, conn)) in c.keys.iter().enumerate() {
+        let kb = xor(&local, &big_dist(*sel, *seed));
+        let _ = table.insert(&raw_key(&kb), i as u32, if *conn { NodeStatus::Connected } else { NodeStatus::Disconnected });
+        inserted.push(kb);
+    }
+    let mut labels: Vec<&'static str> = vec![];
+    let mut nontrivial = false;
+    for (qi, target) in c.queries.iter().enumerate() {
+        let tb: B32 = match target {
+            Target::Local => local,
+            Target::Pool(k) => inserted.get(*k as usize % inserted.len().max(1)).cloned().unwrap_or(local),
+            Target::Flip { k, bit } => xor(&inserted.get(*k as usize % inserted.len().max(1)).cloned().unwrap_or(local), &pow2(*bit as u32)),
+            Target::Rel(p) => xor(&local, &p.value()),
+        };
+        let tkey = raw_key(&tb);
+        let got = table.closest_keys(&tkey);
+        let after = table.snapshot();
+        let views = table.closest(&tkey);
+        let stored: Vec<B32> = after.iter().flat_map(|b| b.nodes.iter().map(|n| n.key.verif_bytes())).collect();
+        let got_b: Vec<B32> = got.iter().map(|k| k.verif_bytes()).collect();
+        let fill: Vec<(usize, usize)> = after.iter().map(|b| (b.index, b.nodes.len())).collect();
+        let detail = || json!({"query": qi, "bucket_size": cap, "bucket_fill": fill, "target_xor_local": hex(&xor(&tb, &local)), "yielded": got_b.len(), "stored": stored.len(),
+            "missing_xor_local": stored.iter().filter(|k| !got_b.contains(k)).take(4).map(|k| hex(&xor(k, &local))).collect::<Vec<_>>()});
+        for (i, k) in got_b.iter().enumerate() {
+            ensure!(!got_b[..i].contains(k), "C38:key-yielded-twice", detail());
+            ensure!(stored.contains(k), "C38:yielded-key-not-stored", detail());
+        }
+        for k in &stored {
+            ensure!(got_b.contains(k), "C38:stored-key-missing", detail());
+        }
+        for p in got_b.windows(2) {
+            ensure!(xor(&p[0], &tb) <= xor(&p[1], &tb), "C38:not-sorted-by-distance", detail());
+        }
+        let view_keys: Vec<B32> = views.iter().map(|v| v.key.verif_bytes()).collect();
+        ensure!(view_keys == got_b, "C38:closest-and-closest_keys-disagree", detail());
+        let max_fill = fill.iter().map(|f| f.1).max().unwrap_or(0);
+        let mut l = vec![];
+        if cap > 20 {
+            l.push("bucket_size>20");
+        } else if cap == 20 {
+            l.push("bucket_size==20");
+        } else {
+            l.push("bucket_size<20");
+        }
+        if max_fill > 20 {
+            l.push("a-bucket-holds>20");
+            nontrivial = true;
+        } else if max_fill >= 8 {
+            l.push("a-bucket-holds>=8");
+        }
+        if max_fill == cap {
+            l.push("a-bucket-is-full");
+        }
+        if stored.len() >= 40 {
+            l.push("stored>=40");
+        }
+        if stored.contains(&tb) {
+            l.push("target-is-stored-key");
+        }
+        for x in l {
+            if !labels.contains(&x) {
+                labels.push(x);
+            }
+        }
+    }
+    Outcome::pass_l(nontrivial, labels)
+}
+
 fn target() -> impl Strategy<Value = Target> {
     prop_oneof![
         2 => Just(Target::Local),
@@ -126,5 +229,17 @@ pub fn run(ctx: &mut Ctx) {
         ctx.n(100_000, 2_500_000),
         &|| (setup_strategy(max_ops), proptest::collection::vec((target(), prop_oneof![3 => Just(0u32), 1 => 0u32..12_000]), 1..5)).prop_map(|(setup, queries)| Case { setup, queries }).boxed(),
         &check,
+    );
+    ctx.check(
+        "large-buckets",
+        "bucket_size 1..48 (below, at and above the default of 20), 0..90 connected/disconnected keys spread over buckets 255/254/253/200/9/6 with a bias to the top buckets so that single buckets hold up to 48 entries, 1..3 queries with target in {local key, stored key, stored key with one bit flipped, local xor pattern}; same oracle (every stored key exactly once, non-decreasing byte-wise XOR distance, closest == closest_keys); non-trivial = some bucket holds more than 20 entries",
+        ctx.n(12_000, 300_000),
+        &|| {
+            let key = (prop_oneof![5 => Just(0u8), 2 => Just(1u8), 1 => 2u8..6], any::<u16>(), any::<bool>());
+            (0u8..4, prop_oneof![2 => 1u8..20, 1 => Just(20u8), 4 => 21u8..=48], proptest::collection::vec(key, 0..90), proptest::collection::vec(target(), 1..4))
+                .prop_map(|(local, bucket_size, keys, queries)| BigCase { local, bucket_size, keys, queries })
+                .boxed()
+        },
+        &big_check,
     );
 }
